@@ -39,21 +39,22 @@
             (not (= (S.bexpr.options.withUnknown o) 0))
             (select (UHeap!deref.Any u) (S.bexpr.options.withUnknown o))
             (S.bexpr.options.withLocalVariables o)))
-(define-fun defaultOpts () S.bexpr.options (mk.S.bexpr.options 0 s.bexprTag fn.nil 0 Sl.S.bexpr.localVariable.nil))
+; written with the generated zero.S / with.S.f helpers so that a new field of `options` does not invalidate the spec (it keeps its zero value and every option leaves it alone)
+(define-fun defaultOpts () S.bexpr.options (with.S.bexpr.options.withTagName zero.S.bexpr.options s.bexprTag))
 ; one option applied to an options record: each constructor touches its own field only
 (define-fun applyOpt ((f Fn) (o S.bexpr.options)) S.bexpr.options
   (ite ((_ is fn.bexpr.WithTagName$1) f)
-       (mk.S.bexpr.options (S.bexpr.options.withMaxExpressions o) (fn.bexpr.WithTagName$1.c0 f) (S.bexpr.options.withHookFn o) (S.bexpr.options.withUnknown o) (S.bexpr.options.withLocalVariables o))
+       (with.S.bexpr.options.withTagName o (fn.bexpr.WithTagName$1.c0 f))
   (ite ((_ is fn.bexpr.WithHookFn$1) f)
-       (mk.S.bexpr.options (S.bexpr.options.withMaxExpressions o) (S.bexpr.options.withTagName o) (fn.bexpr.WithHookFn$1.c0 f) (S.bexpr.options.withUnknown o) (S.bexpr.options.withLocalVariables o))
+       (with.S.bexpr.options.withHookFn o (fn.bexpr.WithHookFn$1.c0 f))
   (ite ((_ is fn.bexpr.WithMaxExpressions$1) f)
-       (mk.S.bexpr.options (fn.bexpr.WithMaxExpressions$1.c0 f) (S.bexpr.options.withTagName o) (S.bexpr.options.withHookFn o) (S.bexpr.options.withUnknown o) (S.bexpr.options.withLocalVariables o))
+       (with.S.bexpr.options.withMaxExpressions o (fn.bexpr.WithMaxExpressions$1.c0 f))
   (ite ((_ is fn.bexpr.WithUnknownValue$1) f)
-       (mk.S.bexpr.options (S.bexpr.options.withMaxExpressions o) (S.bexpr.options.withTagName o) (S.bexpr.options.withHookFn o) (fn.bexpr.WithUnknownValue$1.c0 f) (S.bexpr.options.withLocalVariables o))
+       (with.S.bexpr.options.withUnknown o (fn.bexpr.WithUnknownValue$1.c0 f))
   (ite ((_ is fn.bexpr.WithLocalVariable$1) f)
-       (mk.S.bexpr.options (S.bexpr.options.withMaxExpressions o) (S.bexpr.options.withTagName o) (S.bexpr.options.withHookFn o) (S.bexpr.options.withUnknown o)
+       (with.S.bexpr.options.withLocalVariables o
           (Sl.S.bexpr.localVariable.snoc (S.bexpr.options.withLocalVariables o)
-             (mk.S.bexpr.localVariable (fn.bexpr.WithLocalVariable$1.c0 f) (fn.bexpr.WithLocalVariable$1.c1 f) (fn.bexpr.WithLocalVariable$1.c2 f))))
+             (with.S.bexpr.localVariable.value (with.S.bexpr.localVariable.path (with.S.bexpr.localVariable.name zero.S.bexpr.localVariable (fn.bexpr.WithLocalVariable$1.c0 f)) (fn.bexpr.WithLocalVariable$1.c1 f)) (fn.bexpr.WithLocalVariable$1.c2 f))))
        o))))))
 ; the left fold of applyOpt over an option list, from the defaults; nil options are skipped (applyOpt fn.nil = id)
 (declare-fun FoldOpts (Sl.Fn) S.bexpr.options)
